@@ -6,8 +6,10 @@ import common, lbtool
 def run_shard(binary, wd, seed, seqs, nops, mode, extra=()):
     os.makedirs(wd, exist_ok=True)
     ops = os.path.join(wd, 'ops'); impl = os.path.join(wd, 'impl'); model = os.path.join(wd, 'model'); spec = os.path.join(wd, 'spec')
-    subprocess.run([binary, '-seed', str(seed), '-seqs', str(seqs), '-ops', str(nops), '-mode', mode,
-                    '-ops-out', ops, '-impl-out', impl, *extra], check=True, timeout=3600)
+    p = subprocess.run([binary, '-seed', str(seed), '-seqs', str(seqs), '-ops', str(nops), '-mode', mode,
+                        '-ops-out', ops, '-impl-out', impl, *extra], timeout=3600)
+    if p.returncode not in (0, 3):     # 3 = watchdog: an op never returned ("hang" is the last reply line)
+        raise RuntimeError('lbdiff exit %d' % p.returncode)
     with open(ops) as i, open(model, 'w') as o:
         subprocess.run([common.DRIVER, 'lb'], stdin=i, stdout=o, check=True, timeout=3600)
     with open(spec, 'w') as o:
@@ -36,12 +38,20 @@ def analyse(wd, mode):
         if cur is None: continue
         cur.append(o)
         res['hist'][o.split()[0]] += 1
-        if bad: continue
         sp = spec[i]
+        if bad:
+            # a model/implementation disagreement has been recorded for this sequence; the spec verdict on the
+            # implementation's later replies is independent of the model, so keep looking for a genuine failing input
+            if bad != 'spec' and 'IMPL-SPEC-FAIL' in sp:
+                bad = 'spec'
+                res['problems'].append((list(cur), i - start, 'impl-violates-spec', 'op=%s | impl=%s | spec=%s' % (o, impl[i][:300], sp[:300])))
+            continue
         if sp.startswith('X'): res['out_contract'] += 1
         elif 'OK' in sp or sp == 'new': res['in_contract'] += 1
         kind = None
-        if 'IMPL-SPEC-FAIL' in sp:
+        if impl[i] == 'hang':
+            kind = 'impl-violates-spec'
+        elif 'IMPL-SPEC-FAIL' in sp:
             kind = 'impl-violates-spec'
         elif 'MODEL-SPEC-FAIL' in sp or 'MODEL-PANIC-IN-CONTRACT' in sp:
             kind = 'model-violates-spec'
@@ -52,7 +62,7 @@ def analyse(wd, mode):
         elif mode != 'valid' and (impl[i] == 'panic') != (model[i] == 'panic'):
             kind = 'crash-disagreement'
         if kind:
-            bad = True
+            bad = 'spec' if kind == 'impl-violates-spec' else 'model'
             res['problems'].append((list(cur), i - start, kind, 'op=%s | impl=%s | model=%s | spec=%s' % (o, impl[i][:300], model[i][:300], sp[:300])))
     if cur is not None and n > start + 1:
         res['finals'].add(impl[n - 1].split(' ## ')[-1])
